@@ -157,6 +157,9 @@ pub enum Op {
     /// consume a multi_get iterator step by step, executing one awaited write between consecutive next() calls:
     /// each next() must reflect the state at the time it is called
     IterSteps { map: bool, keys: Vec<u8>, between: Vec<Op> },
+    /// the clock jumps forward in the middle of the wrapped write: its reading number `after_reads` still sees the old
+    /// time, every later reading (of the caller or the worker) the new one
+    JumpDuring { after_reads: u8, by_ms: u32, op: Box<Op> },
     /// inside a burst only: let the parked command worker execute exactly one queued command (the oldest)
     StepWorker,
     /// park the command worker, issue the burst without awaiting, release, await everything
@@ -339,6 +342,9 @@ pub fn op_strategy(params: &GenParams) -> BoxedStrategy<Op> {
         choices.push((walk.max(1), key.clone().prop_map(|k| Op::DeadlineWalk { k }).boxed()));
     }
     choices.push((read.max(3) / 3, (any::<bool>(), prop::collection::vec(key.clone(), 2..=4), prop::collection::vec(writes.clone(), 1..=3)).prop_map(|(map, keys, between)| Op::IterSteps { map, keys, between }).boxed()));
+    if params.ttl {
+        choices.push(((advance / 3).max(1), (0u8..=3, prop_oneof![Just(1u32), Just(500), Just(1001), Just(2500)], writes.clone()).prop_map(|(after_reads, by_ms, op)| Op::JumpDuring { after_reads, by_ms, op: Box::new(op) }).boxed()));
+    }
     if params.stall && stall > 0 {
         let burst_op = prop_oneof![10 => writes, 2 => reads, 2 => Just(Op::StepWorker)];
         choices.push((stall, prop::collection::vec(burst_op, 1..=6).prop_map(|burst| Op::Stall { burst }).boxed()));
